@@ -218,7 +218,7 @@ META = {
 
 def cells():
     out = []
-    big = dict(domain='a', timeout_s=1800, q_timeout_ms=10000, ob_timeout_ms=60000, max_paths=400)
+    big = dict(domain='a', timeout_s=1800, q_timeout_ms=10000, ob_timeout_ms=60000, max_paths=400, events='outside')
     for (m, n), kind, k, tier in [((1, 1), 'full', 1, 'quick'), ((1, 1), 'full', 2, 'quick'), ((2, 1), 'full', 1, 'quick'), ((2, 1), 'real', 2, 'quick'),
                                   ((2, 2), 'real', 1, 'quick'), ((2, 2), 'real', 2, 'thorough'), ((2, 1), 'full', 2, 'thorough'), ((3, 2), 'real', 1, 'thorough')]:
         out.append(Cell('cgne[%dx%d,%s,k=%d]' % (m, n, kind, k), 'c13:cgne', dict(m=m, n=n, k=k, kind=kind), tier=tier, twin=((m, n, k) == (2, 1, 1)),
